@@ -160,7 +160,12 @@ def gen_context(ctx, idx, tool):
     """A docker build context / a Mercurial repository: base/outer/ctx with the ignore file in ctx."""
     rng = ctx.rng
     base = os.path.join(ctx.scratch, "%s%d" % (tool[0], idx))
-    top = os.path.join(base, "outer", "ctx")
+    # the directories ABOVE the context / repository carry names that the unrooted patterns of the pools would match
+    # (README, a+b, sub/deep, keep/y, cache.log): a pattern is matched below the root of the repository only
+    outer = rng.choice(["outer", "outer", "README.d", "a+b", "sub/deep", "keep/y", "xx.log/tmp1", "cachedir.o"])
+    if tool == "hg" and idx % 2 == 0:
+        outer = "README.d/keep"          # ... and for every other Mercurial repository an unrooted regexp that names them is in the file (below)
+    top = os.path.join(base, outer, "ctx")
     os.makedirs(top)
     names = ["a.log", "b.log", "keep.log", "x.txt", "y.txt", "README", "main.rs", "lib.rs", "out.o", "tmp1", "tmp2", "tmp10", "tmpAB", "secret.txt", "data.bin", "a+b", "build.rs", "name",
              # near misses of the dotted patterns: another character where the pattern has a literal dot
@@ -210,6 +215,8 @@ def gen_context(ctx, idx, tool):
                 os.makedirs(os.path.dirname(os.path.join(top, nm_)), exist_ok=True)
                 if not os.path.lexists(os.path.join(top, nm_)):
                     open(os.path.join(top, nm_), "w").close()
+    if tool == "hg" and idx % 2 == 0:
+        lines += ["syntax: regexp", rng.choice(["README", "keep", "README|keep/"])]
     with open(os.path.join(top, TOOLS[tool]["file"]), "w") as f:
         f.write("\n".join(lines) + "\n")
     # configuration homes: this tool on / the OTHER tool on (must not switch this one on) / both
@@ -340,7 +347,7 @@ def run(ctx):
             sub = [d for d in ("src", "docs", "src/sub") if os.path.isdir(os.path.join(top, d)) and os.path.join(top, d) not in ign_abs
                    and not any(os.path.join(top, d).startswith(x + "/") for x in ign_abs)]
             outer = os.path.dirname(top)
-            spellings = [(".", top, top), ("ctx", outer, top), (top, base, top), ("./ctx", outer, top), ("outer/ctx", base, top)]
+            spellings = [(".", top, top), ("ctx", outer, top), (top, base, top), ("./ctx", outer, top), (os.path.relpath(top, base), base, top)]
             for d in sub[:2]:
                 spellings.append((d, top, os.path.join(top, d)))             # the ignore file sits in an ancestor of the root
                 spellings.append((os.path.join(top, d), base, os.path.join(top, d)))
